@@ -292,14 +292,14 @@ def diff_views(exp, got, sort_catalog=False):
     return out
 
 
-def invariant_problems(db, snap):
+def invariant_problems(db, snap, every_table=False):
     """C05: unique ascending keys and valid cells, judged on the implementation's own rows and schemas"""
     from props.c07 import ref_col_valid
     from pkgspec import key_of
     out = []
     for n, cols in snap["tables"].items():
         rows = snap["rows"].get(n)
-        if not isinstance(rows, list) or n not in db.tables:
+        if not isinstance(rows, list) or (n not in db.tables and not every_table) or n.startswith("_"):
             continue
         keys = [key_of(cols, r) for r in rows]
         for a, b in zip(keys, keys[1:]):
@@ -321,6 +321,7 @@ def walk(cmds, outs, decode=None, start_db=None, sort_catalog=False, accounting=
     prev_snap = None        # last snapshot (for 'an error changes nothing' and reopen checks)
     last_was_err = False
     last_was_reopen = False
+    diverged = False
     for i, (cmd, o) in enumerate(zip(cmds, outs)):
         sx = X.parse_sx(cmd)
         name = sx[0]
@@ -397,7 +398,9 @@ def walk(cmds, outs, decode=None, start_db=None, sort_catalog=False, accounting=
             if got != pred:
                 report("gate", "%s returned %s; the specification says %s" % (cmd[:160], got, pred))
                 if got == "ok":
-                    return findings     # the shadow state is no longer meaningful
+                    # the shadow state is no longer meaningful; the invariant of the implementation's own rows is still
+                    # judged on the next snapshot, then the walk stops
+                    diverged = True
             last_was_err = (got == "err")
             last_was_reopen = False
             continue
@@ -413,6 +416,10 @@ def walk(cmds, outs, decode=None, start_db=None, sort_catalog=False, accounting=
             if snap is None:
                 report("panic", "snapshot unreadable: %s" % o[:100])
                 continue
+            if diverged:
+                for p in invariant_problems(db, snap, every_table=True):
+                    report("invariant", p)
+                return findings
             view = snapshot_view(snap)
             for kind, what in diff_views(expected_snapshot_view(db), view, sort_catalog):
                 if last_was_err and prev_snap is not None and snapshot_view(prev_snap) != view:
